@@ -75,6 +75,23 @@ class Expiration(Stream):
             return {"what": "a lease the harness did not create appeared", "signature": "C05b:unknown-lease"}
         return None
 
+    def verdict_predicate(self, op, impl, model, cov):
+        """a renewal that the implementation grants for LONGER than the model's bound (issue time + the lesser of every
+        applicable maximum, `C05b.renew_within_max` / `tokrenew_within_max`) is a lifetime past the bound: concrete"""
+        f = op.split("\t")
+        if f[0] not in ("renew", "tokrenew"):
+            return None
+        ri, rm = impl.split("|", 1)[0], model.split("|", 1)[0]
+        if ri.startswith("ok:") and rm.startswith("ok:"):
+            try:
+                ti, tm = int(ri.split(":")[1]), int(rm.split(":")[1])
+            except ValueError:
+                return None
+            if ti > tm:
+                return {"what": "renewal of lease %s granted %d s where issue time + effective maximum allows %d s" % (f[1], ti, tm),
+                        "signature": "C05b:renewal-beyond-bound"}
+        return None
+
     def case_predicate(self, ops, impls):
         """renewals of leases the previous observation shows irrevocable / absent, or registered non-renewable, must be
         refused; a lazily revoked secret must end revoked at the backend or irrevocable (when the strategy is live)"""
@@ -102,6 +119,8 @@ class Expiration(Stream):
                 batch.add(res.split(":")[1])
                 if f[3] == "0":
                     nonrenewable.add(res.split(":")[1])
+            if f[0] == "rolecreate" and res.startswith("ok:") and f[4] == "0":
+                nonrenewable.add(res.split(":")[1])
             if f[0] == "tokcreate" and res.startswith("ok:") and f[3] == "0":
                 nonrenewable.add(res.split(":")[1])
             if f[0] == "rootcreate" and res.startswith("ok:"):
